@@ -36,6 +36,10 @@ pub enum Op {
     ClearPending { g: usize },
     Deliver { ev: EvRef },
     Restart,
+    /// download a media blob announced by message `msg` from the simulated blob store and decrypt
+    /// it. tamper: 0 none, 1 nonce, 2 file name, 3 MIME type, 4 content hash, 5 scheme version,
+    /// 6 ciphertext bit flip, 7 truncation
+    MediaDownload { msg: EvRef, tamper: u8, seed: u32 },
     /// Byzantine / hostile operations are defined in `hostile.rs` and carried opaquely here
     Hostile(crate::hostile::HostileOp),
     Nop,
@@ -198,6 +202,10 @@ pub struct World {
     pub last_crash: Option<(u32, usize, u64, String)>,
     /// Debug + Display rendering of the last returned value (C14)
     pub last_debug: String,
+    /// labels of the storage ticks of the last executed step (when counting)
+    pub last_tick_labels: Vec<String>,
+    /// simulated Blossom blob store: announcing message -> (ciphertext, original bytes)
+    pub blobs: BTreeMap<EvRef, (Vec<u8>, Vec<u8>)>,
 }
 
 #[derive(Debug, Clone, Serialize, PartialEq, Eq)]
@@ -275,6 +283,8 @@ impl World {
             count_ticks: false,
             last_crash: None,
             last_debug: String::new(),
+            last_tick_labels: vec![],
+            blobs: BTreeMap::new(),
         }
     }
 
@@ -488,6 +498,8 @@ impl World {
 
         // ---- storage tick hook: counting and crash injection --------------------------------
         let tick_state = std::rc::Rc::new(std::cell::RefCell::new((0u64, None::<String>)));
+        let tick_labels = std::rc::Rc::new(std::cell::RefCell::new(Vec::<String>::new()));
+        let want_labels = self.count_ticks;
         let armed_k = match self.arm_crash {
             Some((sid, k)) if sid == step.id => Some(k),
             _ => None,
@@ -495,6 +507,7 @@ impl World {
         let hook_on = (self.count_ticks || armed_k.is_some()) && self.nodes[node].cfg.backend.is_sqlite();
         if hook_on {
             let ts = tick_state.clone();
+            let tl = tick_labels.clone();
             let dir = self.nodes[node].dir.clone();
             let image = self.nodes[node].dir.with_extension("crashimage");
             mdk_sqlite_storage::verif::set_thread_hook(Some(Box::new(move |p| {
@@ -507,6 +520,9 @@ impl World {
                     t.0 += 1;
                     t.0
                 };
+                if want_labels {
+                    tl.borrow_mut().push(format!("{p:?}"));
+                }
                 if Some(n) == armed_k {
                     // process death: what the OS still holds is the directory as it is now
                     let _ = std::fs::remove_dir_all(&image);
@@ -519,6 +535,9 @@ impl World {
         let res = std::panic::catch_unwind(std::panic::AssertUnwindSafe(|| self.exec_inner(step, &pre_state)));
         if hook_on {
             mdk_sqlite_storage::verif::set_thread_hook(None);
+        }
+        if want_labels {
+            self.last_tick_labels = tick_labels.borrow().clone();
         }
         let (ticks, crash_label) = {
             let t = tick_state.borrow();
@@ -740,8 +759,24 @@ impl World {
                 let node_now = (self.now as i64 + self.nodes[node].cfg.clock_offset) as u64;
                 let created_at = Timestamp::from(node_now.saturating_sub(*ts_back as u64));
                 let mut tags = vec![Tag::custom(TagKind::Custom("t".into()), [format!("tag{tag}")])];
+                let mut blob: Option<(Vec<u8>, Vec<u8>)> = None;
                 if *imeta {
-                    tags.push(Tag::custom(TagKind::Custom("x-sim".into()), [format!("m{tag}")]));
+                    let size = [0usize, 1, 31, 1024, 70_000][(*tag % 5) as usize];
+                    let mut r = crate::rng::Rng::new(self.seed ^ ((step.id as u64) << 20) ^ *tag as u64);
+                    let data = r.bytes(size);
+                    let mime = ["text/plain", "application/pdf", "audio/mpeg", "video/mp4"][(*tag % 4) as usize];
+                    let fname = format!("file-{}-{tag}.bin", step.id);
+                    let up = with_mdk!(self.nodes[node].mdk(), m => m.media_manager(gid.clone()).encrypt_for_upload(&data, mime, &fname).map(|u| {
+                        let t = m.media_manager(gid.clone()).create_imeta_tag(&u, &format!("https://blossom.sim.example/{}", hex::encode(u.encrypted_hash)));
+                        (u.encrypted_data, t)
+                    }));
+                    match up {
+                        Ok((enc, t)) => {
+                            tags.push(t);
+                            blob = Some((enc, data));
+                        }
+                        Err(e) => return Outcome::new("err", format!("Err(media: {e})")),
+                    }
                 }
                 let rumor = EventBuilder::new(Kind::Custom(*kind), content.clone())
                     .tags(tags)
@@ -758,6 +793,10 @@ impl World {
                             .unwrap_or_default();
                         let (epoch, st) = pre_state.get(g).cloned().unwrap_or((0, String::new()));
                         let origin = EvRef(step.id, 0);
+                        if let Some(b) = blob {
+                            self.blobs.insert(origin, b);
+                            self.probe("media_encrypted");
+                        }
                         let li = self.ledger.len();
                         self.ledger.push(LedgerMsg {
                             origin,
@@ -958,6 +997,47 @@ impl World {
                 Ok(false) => Outcome::new("skipped", "memory backend: restart not applicable"),
                 Err(e) => Outcome::new("err", format!("restart failed: {e}")),
             },
+            Op::MediaDownload { msg, tamper, seed } => {
+                let Some(l) = self.ledger.iter().find(|l| l.origin == *msg).cloned() else { return Outcome::new("skipped", "no such message") };
+                let Some((mut enc, orig)) = self.blobs.get(msg).cloned() else { return Outcome::new("skipped", "no blob") };
+                let Some(gid) = self.gid(l.g) else { return Outcome::new("skipped", "no group") };
+                let mut r = crate::rng::Rng::new(*seed as u64 ^ self.seed);
+                // the reference: from the client's own stored copy, else out of band from the author
+                let own = with_mdk!(self.nodes[node].mdk(), m => all_messages(m, &gid).into_iter().find(|x| x.id.to_hex() == l.rumor_id));
+                let from_author = with_mdk!(self.nodes[l.author].mdk(), m => all_messages(m, &gid).into_iter().find(|x| x.id.to_hex() == l.rumor_id));
+                let holder = own.clone().or(from_author);
+                let Some(holder) = holder else { return Outcome::new("skipped", "nobody stores the announcing message") };
+                let Some(tag) = holder.tags.iter().find(|t| t.kind() == TagKind::Custom("imeta".into())).cloned() else { return Outcome::new("skipped", "no imeta tag") };
+                match tamper {
+                    6 if !enc.is_empty() => {
+                        let i = r.below(enc.len() as u64) as usize;
+                        enc[i] ^= 1 << r.below(8);
+                    }
+                    7 if !enc.is_empty() => {
+                        let n = r.below(enc.len() as u64) as usize;
+                        enc.truncate(n);
+                    }
+                    _ => {}
+                }
+                let res: Result<Vec<u8>, String> = with_mdk!(self.nodes[node].mdk(), m => (|| {
+                    let mm = m.media_manager(gid.clone());
+                    let mut rf = mm.parse_imeta_tag(&tag).map_err(|e| format!("parse: {e}"))?;
+                    match tamper {
+                        1 => rf.nonce[(r.below(12)) as usize] ^= 1 << r.below(8),
+                        2 => rf.filename = format!("x{}", rf.filename),
+                        3 => rf.mime_type = if rf.mime_type == "text/plain" { "application/pdf".into() } else { "text/plain".into() },
+                        4 => rf.original_hash[(r.below(32)) as usize] ^= 1 << r.below(8),
+                        5 => rf.scheme_version = format!("{}x", rf.scheme_version),
+                        _ => {}
+                    }
+                    mm.decrypt_from_download(&enc, &rf).map_err(|e| format!("{e}"))
+                })());
+                let stored = own.map(|m| m.state.as_str().to_string()).unwrap_or_else(|| "absent".into());
+                match res {
+                    Ok(b) => Outcome::new("media_ok", format!("media ok equal={} stored={stored} tamper={tamper}", b == orig)),
+                    Err(e) => Outcome::new("media_err", format!("media err stored={stored} tamper={tamper}: {}", e.chars().take(80).collect::<String>())),
+                }
+            }
             Op::Hostile(h) => crate::hostile::exec(self, step, h.clone()),
         }
     }
